@@ -417,6 +417,60 @@ func (x *Exec) strLt() string {
 
 func (x *Exec) convert(v *Term, from, to types.Type) *Term {
 	fs, ts := x.TI.SortOf(from), x.TI.SortOf(to)
+	if fs == SInt && ts == SInt {
+		// integers are mathematical; a conversion that can lose values (narrower, or signed <-> unsigned) is the identity only
+		// inside the target's range and an uninterpreted wrap outside it
+		fb, ok1 := types.Unalias(from).Underlying().(*types.Basic)
+		tb, ok2 := types.Unalias(to).Underlying().(*types.Basic)
+		if ok1 && ok2 && fb.Info()&types.IsInteger != 0 && tb.Info()&types.IsInteger != 0 && fb.Info()&types.IsUntyped == 0 {
+			bits := func(b *types.Basic) (int, bool) {
+				switch b.Kind() {
+				case types.Int8:
+					return 8, true
+				case types.Int16:
+					return 16, true
+				case types.Int32:
+					return 32, true
+				case types.Int64, types.Int:
+					return 64, true
+				case types.Uint8:
+					return 8, false
+				case types.Uint16:
+					return 16, false
+				case types.Uint32:
+					return 32, false
+				case types.Uint64, types.Uint, types.Uintptr:
+					return 64, false
+				}
+				return 64, true
+			}
+			fbits, fsigned := bits(fb)
+			tbits, tsigned := bits(tb)
+			loses := tbits < fbits || (fsigned != tsigned && !(fsigned == false && tsigned && tbits > fbits))
+			if loses {
+				name := "wrap_" + tb.Name()
+				if _, ok := x.U.funcs[name]; !ok {
+					x.U.Declare(name, SInt, SInt)
+					lo, hi := new(big.Int), new(big.Int)
+					if tsigned {
+						lo.Lsh(big.NewInt(1), uint(tbits-1))
+						lo.Neg(lo)
+						hi.Lsh(big.NewInt(1), uint(tbits-1))
+						hi.Sub(hi, big.NewInt(1))
+					} else {
+						hi.Lsh(big.NewInt(1), uint(tbits))
+						hi.Sub(hi, big.NewInt(1))
+					}
+					w := Var("wv", SInt)
+					lit := func(b *big.Int) *Term { return BigIntLit(b) }
+					inr := And(Cmp(">=", w, lit(lo)), Cmp("<=", w, lit(hi)))
+					x.U.AddAxiom(name, Forall([]*Term{w}, And(Implies(inr, Eq(App(name, SInt, w), w)),
+						Cmp(">=", App(name, SInt, w), lit(lo)), Cmp("<=", App(name, SInt, w), lit(hi))), []*Term{App(name, SInt, w)}))
+				}
+				return App(name, SInt, v)
+			}
+		}
+	}
 	switch {
 	case fs == ts:
 		return v
